@@ -22,6 +22,15 @@ fn usage() -> ! {
 }
 
 fn main() {
+    // panics are observations here (catch_unwind around library calls): keep stderr readable
+    if std::env::var("VERIF_BACKTRACE").is_err() {
+        std::panic::set_hook(Box::new(|info| {
+            let msg = info.payload().downcast_ref::<&str>().map(|s| s.to_string()).or_else(|| info.payload().downcast_ref::<String>().cloned()).unwrap_or_default();
+            if !msg.starts_with("verif: injected panic") {
+                eprintln!("panic: {} at {}", msg, info.location().map(|l| format!("{}:{}", l.file(), l.line())).unwrap_or_default());
+            }
+        }));
+    }
     let args: Vec<String> = std::env::args().skip(1).collect();
     if args.is_empty() {
         usage();
